@@ -146,6 +146,9 @@ def evaluate_url(u):
         tags.append("redirects")
     if len(orbit) > 2:
         tags.append("multi-hop")
+    if status != "fixed":
+        # the one-step function does not converge from here (reported above): the recursive call has nothing to agree with
+        return fails, tags, (orbit[-1], len(orbit))
     rr = core.guarded(ir, u)
     if rr[0] != "ok" or not isinstance(rr[1], str):
         fails.append((PROP + ".terminates", "recursive call returns a string", list(rr)))
